@@ -209,6 +209,25 @@ def Downstream (ops : Ops σ S C) (ns : Nat) (ctr : σ → Nat) : Store C → σ
   | st, s, Y, .upd g :: h =>
     (ctr (g s) = ctr s ∧ ∀ t ∈ ops.refs (g s), t ∈ ops.refs s) ∧ Downstream ops ns ctr st (g s) Y h
 
+/-! ## accumulators that allocate in several namespaces (`Split` used through its common-type methods) -/
+
+/-- generalisation of `FreshYield` to an object whose parts allocate in namespaces of their own: `Old s t` says
+that the object `t` exists in state `s` (it is not one the element is still going to allocate); `Inv` is an
+invariant of the states (for a `Split`: the branches have different numbers and allocate what they yield) -/
+structure FreshYieldG (ops : Ops σ S C) (Inv : σ → Prop) (Old : σ → Tok → Prop) : Prop where
+  inv : ∀ st s (r : Req S), Inv s → Inv (ops.act st s r).2.1
+  mono : ∀ st s (r : Req S) t, Inv s → Old s t → Old (ops.act st s r).2.1 t
+  fresh : ∀ st s (r : Req S), Inv s → r.isAcc = true → ∀ t ∈ cellsOf (ops.act st s r).2.2.outs,
+    ¬ Old s t ∧ Old (ops.act st s r).2.1 t
+  nodup : ∀ st s (r : Req S), Inv s → r.isAcc = true → (cellsOf (ops.act st s r).2.2.outs).Nodup
+
+/-- the values passed to the invocations of a history exist when they are passed -/
+def FilledOld (ops : Ops σ S C) (Old : σ → Tok → Prop) : Store C → σ → List (HOp σ S C) → Prop
+  | _, _, [] => True
+  | st, s, .req r :: h => (∀ t ∈ r.cells, Old s t) ∧ FilledOld ops Old (ops.act st s r).1 (ops.act st s r).2.1 h
+  | st, s, .ext f :: h => FilledOld ops Old (f st) s h
+  | st, s, .upd g :: h => FilledOld ops Old st (g s) h
+
 /-! ## executable forms (for the driver) -/
 
 instance (a b : List Tok) : Decidable (Disj a b) :=
@@ -240,5 +259,49 @@ def localInstance (same : C → C → Bool) (ns : Nat) (refs cells refs' : List 
     (st st' : Store C) (known : List Tok) : Bool :=
   let inFoot := fun (t : Tok) => t.1 == ns || refs.contains t || cells.contains t
   refs'.all inFoot && (cellsOf outs).all inFoot && known.all (fun t => inFoot t || same (st t) (st' t))
+
+/-- pointwise equality of two lists for a given equality test -/
+def listEqb {α : Type} (eq : α → α → Bool) : List α → List α → Bool
+  | [], [] => true
+  | a :: l, b :: m => eq a b && listEqb eq l m
+  | _, _ => false
+
+theorem listEqb_iff {α : Type} (eq : α → α → Bool) (h : ∀ a b, eq a b = true ↔ a = b) :
+    ∀ l m : List α, listEqb eq l m = true ↔ l = m
+  | [], [] => by simp [listEqb]
+  | [], _ :: _ => by simp [listEqb]
+  | _ :: _, [] => by simp [listEqb]
+  | a :: l, b :: m => by simp [listEqb, h, listEqb_iff eq h l m]
+
+def itemEqb (eqS : S → S → Bool) (x y : Item S) : Bool := eqS x.skel y.skel && x.cells == y.cells
+
+theorem itemEqb_iff (eqS : S → S → Bool) (h : ∀ a b, eqS a b = true ↔ a = b) (x y : Item S) :
+    itemEqb eqS x y = true ↔ x = y := by
+  cases x; cases y
+  simp [itemEqb, h]
+
+/-- `SchedOK` as a test, for an equality test `eqS` of skeletons -/
+def schedOKb (eqS : S → S → Bool) (i : Nat) (e : List (Item S) × List (Item S) × Bool) : Bool :=
+  listEqb eqS (e.2.1.map (·.skel)) (e.1.map (·.skel)) && (e.2.2 || listEqb (itemEqb eqS) e.2.1 e.1) &&
+  (!e.2.2 || (cellsOf e.2.1).all (fun t => t.1 == copyNsOf i))
+
+/-- the test decides `SchedOK` when `eqS` decides equality -/
+theorem schedOKb_iff (eqS : S → S → Bool) (h : ∀ a b, eqS a b = true ↔ a = b) (i : Nat)
+    (e : List (Item S) × List (Item S) × Bool) : schedOKb eqS i e = true ↔ SchedOK i e := by
+  obtain ⟨bl, buf, c⟩ := e
+  simp only [schedOKb, SchedOK, Bool.and_eq_true, Bool.or_eq_true, listEqb_iff eqS h,
+    listEqb_iff (itemEqb eqS) (itemEqb_iff eqS h), Bool.not_eq_true', List.all_eq_true, beq_iff_eq]
+  cases c <;> simp [and_assoc]
+
+/-- `FillOK` as a test -/
+def fillOKb (eqS : S → S → Bool) (i : Nat) (e : Item S × Item S × Bool) : Bool :=
+  eqS e.2.1.skel e.1.skel && (e.2.2 || itemEqb eqS e.2.1 e.1) && (!e.2.2 || e.2.1.cells.all (fun t => t.1 == copyNsOf i))
+
+theorem fillOKb_iff (eqS : S → S → Bool) (h : ∀ a b, eqS a b = true ↔ a = b) (i : Nat)
+    (e : Item S × Item S × Bool) : fillOKb eqS i e = true ↔ FillOK i e := by
+  obtain ⟨x, y, c⟩ := e
+  simp only [fillOKb, FillOK, Bool.and_eq_true, Bool.or_eq_true, h, itemEqb_iff eqS h, Bool.not_eq_true',
+    List.all_eq_true, beq_iff_eq]
+  cases c <;> simp [and_assoc]
 
 end Lena.C04
